@@ -403,3 +403,64 @@ func TestC18_Mgrx(t *testing.T) {
 		}
 	})
 }
+
+// TestC20_MgrxFailingOption: a transport option that fails makes the open fail - and
+// nothing else: other channels still clean up, and Stop returns.
+func TestC20_MgrxFailingOption(t *testing.T) {
+	sp := stats.For("C20")
+	rapid.Check(t, func(t *rapid.T) {
+		r := newMgrRig(t, gen.Peer(0), dbl.NewRecDatastore(), "T/a")
+		stopped := false
+		defer func() {
+			if !stopped {
+				// (a failure above may leave the manager unable to stop: do not wait for ever)
+				within(func() { r.stop() })
+			}
+		}()
+		var log []string
+		role := rapid.SampledFrom(roles).Draw(t, "otherChannelRole")
+		other := openRole(t, r, &log, role, 1300, false)
+		failing := func(datatransfer.ChannelID, datatransfer.Transport) error { return errors.New("option failed") }
+		n := rapid.IntRange(1, 3).Draw(t, "failingOpens")
+		for i := 0; i < n; i++ {
+			pull := rapid.Bool().Draw(t, "pull")
+			opts := []datatransfer.TransferOption{datatransfer.WithTransportOptions(noopTransportOption, failing)}
+			v := datatransfer.TypedVoucher{Type: "T/a", Voucher: basicnode.NewString("v")}
+			var err error
+			ok := within(func() {
+				if pull {
+					_, err = r.mgr.OpenPullDataChannel(bg(), gen.Peer(2), v, simpleCid(9), strNode("sel"), opts...)
+				} else {
+					_, err = r.mgr.OpenPushDataChannel(bg(), gen.Peer(2), v, simpleCid(9), strNode("sel"), opts...)
+				}
+			})
+			log = append(log, fmt.Sprintf("open (pull=%v) with a transport option that fails -> returned=%v err=%v", pull, ok, err))
+			if !ok {
+				mfail(t, log, "C20/open-blocked", "an open with a failing transport option did not return within %s", watchdog)
+			}
+			if err == nil {
+				mfail(t, log, "C16/failing-option-ignored", "an open whose transport option failed returned nil")
+			}
+		}
+		// another channel still ends and cleans up
+		var cerr error
+		if !within(func() { cerr = r.closeCh(other.chid) }) {
+			mfail(t, log, "C20/close-blocked", "closing another channel blocks after an open whose transport option failed")
+		}
+		if st, ok := r.settle(other.chid); !ok || st == nil || !isTerminal(st.Status()) {
+			status := "unknown (the state query did not return)"
+			if st != nil {
+				status = datatransfer.Statuses[st.Status()]
+			}
+			mfail(t, log, "C20/cleanup-blocked-after-failed-option", "another channel does not finish its cleanup after an open whose transport option failed (close err=%v, status %s)", cerr, status)
+		}
+		// and Stop returns
+		stopped = true
+		if !within(func() { r.stop() }) {
+			mfail(t, log, "C20/stop-hang", "Stop did not return within %s after an open whose transport option failed", watchdog)
+		}
+		sp.Eval()
+		sp.Nontrivial(stats.FP("failing-option", role, n))
+		sp.Class("mgrx_failing_transport_option")
+	})
+}
